@@ -377,7 +377,8 @@ pub fn run_build_once(
     let mut cmd;
     if let Some(t) = trace {
         cmd = Command::new("strace");
-        cmd.arg("-f").arg("-y").arg("-s").arg("8").arg("-o").arg(t);
+        // --seccomp-bpf: only the traced syscalls stop the tracee (much cheaper with -f)
+        cmd.arg("-f").arg("--seccomp-bpf").arg("-y").arg("-s").arg("8").arg("-o").arg(t);
         cmd.arg("-e").arg(format!("trace={TRACED}"));
         for i in injects {
             cmd.arg("-e").arg(format!("inject={}:{}:when={}", i.syscall, i.action, i.when));
@@ -759,4 +760,26 @@ pub fn copy_dir(from: &Path, to: &Path) {
             }
         }
     }
+}
+
+/// `vhcore::work_dir(id)` wipes the directory; proposed fix patches (`fix-<n>.patch`) that live
+/// there are carried over.
+pub fn work_dir_keeping_patches(id: &str) -> PathBuf {
+    let d = vhcore::verif_root().join("work").join(id);
+    let mut keep = vec![];
+    if let Ok(rd) = std::fs::read_dir(&d) {
+        for e in rd.filter_map(|e| e.ok()) {
+            let n = e.file_name().to_string_lossy().to_string();
+            if n.starts_with("fix-") && n.ends_with(".patch") {
+                if let Ok(b) = std::fs::read(e.path()) {
+                    keep.push((n, b));
+                }
+            }
+        }
+    }
+    let d = vhcore::work_dir(id);
+    for (n, b) in keep {
+        let _ = std::fs::write(d.join(n), b);
+    }
+    d
 }
